@@ -18,6 +18,20 @@ C2 = ["CNOT", "CZ", "CY", "SWAP", "ISWAP"]
 def rand_ops(labels, clifford=False):
     ops, nw = [], len(labels)
     for _ in range(rng.randint(2, 5 + 2 * nw)):
+        if nw >= 3 and not clifford and rng.random() < 0.18:
+            # three-wire operators (devices use different kernels from three wires on), real and complex, diagonal and not
+            ws = rng.sample(labels, 3)
+            k = rng.choice(["Toffoli", "CSWAP", "CCZ", "c2rx", "c2ry", "c2ps", "mrz", "c01rx"])
+            if k in ("Toffoli", "CSWAP", "CCZ"):
+                ops.append(getattr(qp, k)(wires=ws))
+            elif k == "mrz":
+                ops.append(qp.MultiRZ(pyth_angle(rng), wires=ws))
+            elif k == "c01rx":
+                ops.append(qp.ctrl(qp.RX(pyth_angle(rng), wires=ws[2]), control=ws[:2], control_values=[0, 1]))
+            else:
+                base = {"c2rx": qp.RX, "c2ry": qp.RY, "c2ps": qp.PhaseShift}[k](pyth_angle(rng), wires=ws[2])
+                ops.append(qp.ctrl(base, control=ws[:2]))
+            continue
         if rng.random() < 0.55 or nw == 1:
             nm = rng.choice(C1 if clifford else G1); ws = [rng.choice(labels)]
         else:
@@ -45,6 +59,21 @@ for ci in range(ncirc):
     devname = DEVICES[ci % len(DEVICES)]
     clifford = devname == "default.clifford"
     ops = rand_ops(labels, clifford)
+    if ci < len(DEVICES) and not clifford:
+        # fixed corpus circuit (one per device): complex non-diagonal three-wire operators on string / unordered labels
+        import math as _m
+        nw, labels = 3, ["b", 3, "a"]
+        A1, A2 = 2 * _m.atan2(4, 3), 2 * _m.atan2(3, 4)
+        ops = [qp.Hadamard("b"), qp.RY(A1, 3), qp.ctrl(qp.RX(A2, "a"), control=["b", 3]), qp.S("a"), qp.T("b"),
+               qp.ctrl(qp.RX(A1, 3), control=["a", "b"], control_values=[0, 1]), qp.CNOT([3, "a"]), qp.CSWAP(["a", "b", 3]), qp.RX(A2, "b")]
+        # a dense complex three-wire unitary with Gaussian-rational entries, applied natively as one matrix
+        U3 = np.kron(np.kron(qp.matrix(qp.RX(A1, 0)), np.eye(2)), qp.matrix(qp.RY(A2, 0))) @ qp.matrix(qp.Toffoli([0, 1, 2])) \
+            @ np.kron(np.kron(np.eye(2), qp.matrix(qp.S(0))), qp.matrix(qp.RX(A2, 0)))
+        ops.insert(4, qp.QubitUnitary(U3, wires=[3, "a", "b"]))
+        # first-order Trotter product of non-commuting terms (devices with their own kernel for it must keep the factor order);
+        # coefficients are Pythagorean angles so that every factor exp(-i c t/n P) is exactly representable
+        ops.append(qp.TrotterProduct(qp.sum(qp.s_prod(A1, qp.X("b")), qp.s_prod(A2, qp.Z("b") @ qp.Z(3)), qp.s_prod(A1, qp.Y(3)), qp.s_prod(A2, qp.X("a") @ qp.Y("b"))),
+                                     time=1.0, n=2, order=1))
     ms, mdesc = [], []
     for _ in range(rng.randint(1, 2)):
         r = rng.random()
@@ -62,7 +91,12 @@ for ci in range(ncirc):
     run = {"labels": labels, "dev_wires": labels, "device": devname, "ops": [repr(o) for o in ops], "meas": mdesc, "status": "ok", "n": nw}
     runs.append(run)
     try:
-        run["circuit"] = exact_circuit_gallina(ops, labels)
+        # reference circuit: a TrotterProduct is replaced by its documented factor sequence (each factor is exactly representable,
+        # the product is not recognisable as a constant matrix)
+        ref = []
+        for o in ops:
+            ref += list(o.decomposition()) if o.name == "TrotterProduct" else [o]
+        run["circuit"] = exact_circuit_gallina(ref, labels)
         if devname.startswith("default.tensor"):
             dev = qp.device("default.tensor", wires=labels, method=devname.split(":")[1], **({"max_bond_dim": 64} if devname.endswith("mps") else {}))
         else:
